@@ -79,6 +79,8 @@ def rewrite(text, fmt, rnd):
         # case changes in 'Block' and in the name
         kw = rnd.choice(["Block", "BLOCK", "block", "bLoCk"])
         nm = rnd.choice([head[1], head[1].upper(), head[1].lower()])
+        if len(head) > 3 and head[2].upper() == "Q=" and rnd.random() < 0.5:
+            head = head[:3] + [respell(head[3], rnd)] + head[4:]
         rest = " ".join(head[2:])
         lines = [(rnd.choice(["", " ", "   "]) if False else "") + kw + " " + nm + ((" " + rest) if rest else "") + rnd.choice(["", "   # comment", " #Block fake"])]
         data = b[1:]
@@ -120,7 +122,11 @@ def rewrite(text, fmt, rnd):
             if h[1].upper() == "HMIX" and len(h) > 3:
                 q_eff = float(h[3])
         if q_eff:
-            qo = q_eff * rnd.choice([0.5, 2.0, 1.01]) + 1.0
+            # far scales, and scales that are close to but not at the effective one (the documented match is |Q - Q_HMIX| < 0.01;
+            # a near scale here is off by >= 0.1 absolute and >= 3e-4 relative, so that a tighter or a relative reading of "matches"
+            # that still separates scales a spectrum generator would print differently stays silent)
+            near = rnd.choice([1, -1]) * (0.1 + abs(q_eff) * rnd.choice([3e-4, 1e-3, 3e-3, 8e-3]))
+            qo = rnd.choice([q_eff * 0.5 + 1.0, q_eff * 2.0 + 1.0, q_eff * 1.01 + 1.0, q_eff + near, q_eff + near])
             dup = []
             for nmx in rnd.sample(["MSOFT", "AU", "AD", "AE", "HMIX"], rnd.randrange(1, 4)):
                 if nmx == "HMIX":
@@ -129,7 +135,12 @@ def rewrite(text, fmt, rnd):
                     dup.append(["Block MSOFT Q= %.17g" % qo, "   1   %.17g" % rnd.uniform(100, 900), "  32   %.17g" % rnd.uniform(100, 900), "  35   %.17g" % rnd.uniform(100, 900), "  43   777.0"])
                 else:
                     dup.append(["Block %s Q= %.17g" % (nmx, qo), "  2  2   %.17g" % rnd.uniform(-900, 900), "  3  3   %.17g" % rnd.uniform(-900, 900)])
-            out = dup + out
+            # a repeated HMIX block stays before the last HMIX block (which defines the scale); the others go anywhere, also after
+            # the blocks at the effective scale, where reading them would overwrite the effective values
+            for d in dup:
+                last_hmix = max(i for i, b in enumerate(out) if b[0].split()[1].upper() == "HMIX")
+                hi = last_hmix if d[0].split()[1].upper() == "HMIX" else len(out)
+                out.insert(rnd.randrange(hi + 1), d)
     return "\n".join("\n".join(b) for b in out) + "\n"
 
 
